@@ -55,6 +55,11 @@ macro_rules! impl_parse {
                     }
 
                     $input.parse::<syn::Token![,]>()?;
+
+                    // a list may end in a comma
+                    if $input.is_empty() {
+                        break;
+                    }
                 }
 
                 Ok($out)
@@ -99,6 +104,11 @@ macro_rules! impl_parse {
                     }
 
                     $input.parse::<syn::Token![,]>()?;
+
+                    // a list may end in a comma
+                    if $input.is_empty() {
+                        break;
+                    }
                 }
 
                 Ok($out)
